@@ -7,7 +7,6 @@ import (
 	"math"
 	"math/big"
 	"sort"
-	"strings"
 	"sync"
 	"unsafe"
 
@@ -576,6 +575,7 @@ func (r *Runtime) typedArrayProto_filter(call FunctionCall) Value {
 			return kept
 		} else {
 			ret := r.typedArrayCreate(c, intToValue(int64(captured)))
+			checkTypedArrayMixBigInt(ret, ta)
 			keptTa := kept.self.(*typedArrayObject)
 			for i := 0; i < captured; i++ {
 				ret.typedArray.set(ret.offset+i, keptTa.typedArray.get(keptTa.offset+i))
@@ -1061,11 +1061,11 @@ func (r *Runtime) typedArrayProto_set(call FunctionCall) Value {
 			if x := srcLen + targetOffset; x < 0 || x > targetLen {
 				panic(r.newError(r.getRangeError(), "Source is too large"))
 			}
+			checkTypedArrayMixBigInt(src, ta)
 			if src.defaultCtor == ta.defaultCtor {
 				copy(ta.viewedArrayBuf.data[(ta.offset+targetOffset)*ta.elemSize:],
 					src.viewedArrayBuf.data[src.offset*src.elemSize:(src.offset+srcLen)*src.elemSize])
 			} else {
-				checkTypedArrayMixBigInt(src.defaultCtor, ta.defaultCtor)
 				curSrc := uintptr(unsafe.Pointer(&src.viewedArrayBuf.data[src.offset*src.elemSize]))
 				endSrc := curSrc + uintptr(srcLen*src.elemSize)
 				curDst := uintptr(unsafe.Pointer(&ta.viewedArrayBuf.data[(ta.offset+targetOffset)*ta.elemSize]))
@@ -1430,7 +1430,9 @@ func (r *Runtime) allocateTypedArray(newTarget *Object, length int, taCtor typed
 }
 
 func (r *Runtime) typedArraySpeciesCreate(ta *typedArrayObject, args []Value) *typedArrayObject {
-	return r.typedArrayCreate(r.speciesConstructorObj(ta.val, ta.defaultCtor), args...)
+	res := r.typedArrayCreate(r.speciesConstructorObj(ta.val, ta.defaultCtor), args...)
+	checkTypedArrayMixBigInt(res, ta)
+	return res
 }
 
 func (r *Runtime) typedArrayCreate(ctor *Object, args ...Value) *typedArrayObject {
@@ -1529,12 +1531,18 @@ func (r *Runtime) _newTypedArrayFromArrayBuffer(ab *arrayBufferObject, args []Va
 	return ta.val
 }
 
-func checkTypedArrayMixBigInt(src, dst *Object) {
-	srcType := src.self.getStr("name", nil).String()
-	if strings.HasPrefix(srcType, "Big") {
-		if !strings.HasPrefix(dst.self.getStr("name", nil).String(), "Big") {
-			panic(errMixBigIntType)
-		}
+func (a *typedArrayObject) isBigIntArray() bool {
+	switch a.typedArray.(type) {
+	case *bigInt64Array, *bigUint64Array:
+		return true
+	}
+	return false
+}
+
+// checkTypedArrayMixBigInt throws a TypeError if the [[ContentType]] of the two arrays differs.
+func checkTypedArrayMixBigInt(src, dst *typedArrayObject) {
+	if src.isBigIntArray() != dst.isBigIntArray() {
+		panic(errMixBigIntType)
 	}
 }
 
@@ -1550,7 +1558,7 @@ func (r *Runtime) _newTypedArrayFromTypedArray(src *typedArrayObject, newTarget 
 		dst.length = src.length
 		return dst.val
 	} else {
-		checkTypedArrayMixBigInt(src.defaultCtor, newTarget)
+		checkTypedArrayMixBigInt(src, dst)
 	}
 	dst.length = l
 	for i := 0; i < l; i++ {
